@@ -11,6 +11,7 @@
 EXTENDS Integers, Sequences, FiniteSets
 
 CONSTANTS Rings,      \* sequence of rings; Rings[r] = non-empty sequence of target ids of route r
+          Starts,     \* cursor positions a behaviour may start from (a sample of Nat, see below)
           MaxSteps    \* lookups per behaviour
 
 VARIABLES cur,        \* cursor per route
@@ -23,13 +24,20 @@ U(r) == Len(Rings[r])
 CountIn(q, x) == Cardinality({i \in 1..Len(q) : q[i] = x})
 Targets(r) == {Rings[r][i] : i \in 1..U(r)}
 
-\* a table is installed with every cursor at an arbitrary position
-Init == /\ cur \in [Routes -> 0..1]
+\* The cursor of a route is a NATURAL NUMBER: the number of lookups the route has served.  It
+\* is never reduced, wrapped or truncated; only its remainder modulo the ring length selects
+\* the slot.  A behaviour may therefore start from any count whatsoever (a route that has
+\* already served 2^32 or 2^63 lookups is a route like any other); model checking samples
+\* Starts \subseteq Nat up to the largest integers TLC has, the harness positions the real
+\* counter just below 2^32, 2^32 + 2^31 and 2^63.
+ASSUME Starts \subseteq Nat
+PickAt(r, c) == Rings[r][(c % U(r)) + 1]
+Init == /\ cur \in [Routes -> Starts]
         /\ seen = [r \in Routes |-> <<>>]
         /\ sched = <<>>
 LookupOn(r) ==
     /\ Len(sched) < MaxSteps
-    /\ seen' = [seen EXCEPT ![r] = Append(@, Rings[r][(cur[r] % U(r)) + 1])]
+    /\ seen' = [seen EXCEPT ![r] = Append(@, PickAt(r, cur[r]))]
     /\ cur' = [cur EXCEPT ![r] = @ + 1]
     /\ sched' = Append(sched, r)
 Next == \E r \in Routes : LookupOn(r)
@@ -43,5 +51,14 @@ PerRouteCycle ==
             \A x \in Targets(r) : CountIn(w, x) = CountIn(Rings[r], x)
 \* a route's picks are periodic with its ring length and independent of the other routes
 Periodic == \A r \in Routes : \A i \in 1..Len(seen[r]) : i > U(r) => seen[r][i] = seen[r][i - U(r)]
+\* what a route returns depends on its own count only, at any count: the i-th lookup of a
+\* behaviour that started at count c0 is the slot (c0 + i - 1) mod ring length, so a full
+\* cycle is exact and lookup i + U equals lookup i however large the count is
+PeriodicAtAnyCount ==
+    \A r \in Routes :
+        LET c0 == cur[r] - Len(seen[r]) IN
+        /\ c0 \in Starts
+        /\ \A i \in 1..Len(seen[r]) : seen[r][i] = PickAt(r, c0 + i - 1)
+        /\ \A c \in Starts : PickAt(r, c + U(r)) = PickAt(r, c)
 OnlyMembers == \A r \in Routes : \A i \in 1..Len(seen[r]) : seen[r][i] \in Targets(r)
 =============================================================================
